@@ -465,6 +465,14 @@ def io_seek(e, c, a):
     return f.seek(e, sf.variant, sf.f[0])
 
 
+@model(r"^(std::io::)?BufReader::<.*>::seek_relative$")
+def bufreader_seek_relative(e, c, a):
+    """BufReader::seek_relative(offset: i64) = seek(SeekFrom::Current(offset)) without discarding the buffer (no observable difference here)"""
+    f = _source(e, a[0])
+    r = f.seek(e, 2, a[1])
+    return ok(UNIT) if r.variant == 0 else r
+
+
 @model(r" as AsRef<(std::path::)?Path>>::as_ref$| as AsRef<OsStr>>::as_ref$|^Path::new::<|^std::path::Path::new::<|^Path::(to_path_buf|as_os_str|to_str|to_string_lossy|display)$|^PathBuf::(as_path|from)|<PathBuf as Deref>::deref$|^OsStr::to_str$")
 def path_identity(e, c, a):
     if c.endswith("to_str"):
